@@ -110,6 +110,7 @@ def _lr_result(p, w, gi, impl, parglare):
         r["kind"] = "ok"
         r["tree"] = impl.node_sx(t, gi)
         r["trace"] = impl.lr_tree_trace(t)
+        r["lay_all"], r["lay_ok"] = _all_layout(t, lambda x: None if x.is_term() else list(x.children))
     except parglare.SyntaxError as e:
         r["kind"] = "SyntaxError"
         r["pos"] = e.location.start_position
@@ -138,6 +139,9 @@ def _glr_result(p, w, gi, impl, parglare):
                 trees.append(impl.tree_sx(t, gi))
                 if i < 3:
                     traces.append(_tree_trace(t))
+                    la, ok = _all_layout(t, lambda x: None if x.root.is_term() else list(x.children))
+                    r.setdefault("lay_all", []).append(la)
+                    r["lay_ok"] = r.get("lay_ok", True) and ok
             r["trees"] = trees
             r["traces"] = traces
     except parglare.SyntaxError as e:
@@ -148,6 +152,23 @@ def _glr_result(p, w, gi, impl, parglare):
     except BaseException as e:  # noqa
         r = {"kind": "exc:" + impl.exc_kind(e)}
     return r
+
+
+def _all_layout(n, kids):
+    """layout_content of every node in preorder, and whether each interior node carries the
+    layout of its first child ('' when it has none)"""
+    out, ok = [], True
+    stack = [n]
+    while stack:
+        x = stack.pop()
+        out.append(x.layout_content)
+        ks = kids(x)
+        if ks is not None:
+            want = ks[0].layout_content if ks else ""
+            if x.layout_content != want:
+                ok = False
+            stack.extend(reversed(ks))
+    return out, ok
 
 
 def _tree_trace(t):
@@ -584,7 +605,7 @@ def named_tree(t, c):
 
 def named_lr(r, c):
     if r["kind"] == "ok":
-        return ("ok", named_tree(r["tree"], c), tuple(tuple(x) for x in r["trace"]))
+        return ("ok", named_tree(r["tree"], c), tuple(tuple(x) for x in r["trace"]), tuple(r["lay_all"]))
     if r["kind"] == "SyntaxError":
         return ("SyntaxError", r["pos"], tuple(r["expected"]), tuple(r["ahead"]))
     return (r["kind"], r.get("pos"))
@@ -593,7 +614,8 @@ def named_lr(r, c):
 def named_glr(r, c):
     if r["kind"] == "forest":
         return ("forest", r["n"], r["amb"], tuple(named_tree(t, c) for t in r["trees"]),
-                tuple(tuple(tuple(x) for x in tr) for tr in r["traces"]))
+                tuple(tuple(tuple(x) for x in tr) for tr in r["traces"]),
+                tuple(tuple(x) for x in r.get("lay_all", [])))
     if r["kind"] == "SyntaxError":
         return ("SyntaxError", r["pos"], tuple(r["expected"]))
     return (r["kind"], r.get("pos"))
@@ -715,6 +737,9 @@ def run(ctx):
                     if r["lr"]["kind"] == "ok" and not trace_lossless(r["lr"]["trace"], w):
                         ctx.violation("LR: layout_content of a leaf is not the text between the tokens",
                                       dict(rep, trace=r["lr"]["trace"]), key="layout-content")
+                    if r["lr"]["kind"] == "ok" and not r["lr"]["lay_ok"]:
+                        ctx.violation("LR: layout_content of an interior node is not that of its first child",
+                                      dict(rep, layouts=r["lr"]["lay_all"]), key="layout-content-node")
                     if r["lr"]["kind"] == "exc:Timeout":
                         st["impl_timeouts"] += 1
                     elif r["lr"]["kind"].startswith("exc:"):
@@ -727,6 +752,13 @@ def run(ctx):
                             if not trace_lossless(tr, w):
                                 ctx.violation("GLR: layout_content of a leaf is not the text between the tokens",
                                               dict(rep, trace=tr), key="glr-layout-content")
+                        if not g.get("lay_ok", True):
+                            # observation outside C14 (C08 matter): glr.py _reduce gives an interior node
+                            # the layout_content of the *root* of the reduction path (the node before its
+                            # first child), LR gives it the layout of its first child.  The value is the
+                            # same under ws and LAYOUT, which is all C14 asks, so it is only counted.
+                            st["glr_interior_layout_is_not_first_childs"] = \
+                                st.get("glr_interior_layout_is_not_first_childs", 0) + 1
                     if g["kind"] == "exc:Timeout":
                         st["impl_timeouts"] += 1
                     elif g["kind"].startswith("exc:") and g["kind"] not in ("exc:LoopError",):
